@@ -395,6 +395,12 @@ func (r *Run) opHostile(op *Op) {
 	if d := diffSnap(before, after, except...); d != "" {
 		r.fail("frame.others", fmt.Sprintf("%s on a %s key changes something other than the addressed key: %s %s", op.Sub, keyClass(op.Key), snapSig(d), r.bctx()), "only "+op.B+"/"+strconv.Quote(op.Key)+" may change", d)
 	}
+	if !resp.OK() && (op.Sub == "put" || op.Sub == "copy") {
+		// a refused upload leaves nothing behind, not even in its own bucket
+		if bb, ba := before.Buckets[op.B], after.Buckets[op.B]; bb != nil && ba != nil && bb.Grouped != ba.Grouped && !r.me().faulted {
+			r.fail("frame.others", fmt.Sprintf("a refused %s on a %s key changes the bucket's delimited listing %s", op.Sub, keyClass(op.Key), r.bctx()), bb.Grouped, ba.Grouped)
+		}
+	}
 	if treeBefore != nil && r.Plan.Config.Backend == "multifs" && !isInternalName(r.Plan.Config, op.B) {
 		treeAfter := r.Env.SimFS.Dump()
 		allowed := []string{"/data/buckets/" + op.B + "/", "/data/metadata/" + op.B + "/", "/data/buckets/" + op.B, "/data/metadata/" + op.B}
